@@ -32,6 +32,7 @@ const (
 	hdrVerifService = "X-Verif-Service"     // "agent" | "api" | anything else: end-user request
 	hdrVerifReqID   = "X-Verif-Request-Id"  // stands in for appengine.RequestID
 	hdrVerifOAuth   = "X-Verif-OAuth-Email" // identity for user.CurrentOAuth; absent: the call fails
+	emptyEmailToken = "<token-without-email>"
 	hdrVerifAdmin   = "X-Verif-OAuth-Admin" // "1": that identity is an app admin
 )
 
@@ -79,6 +80,9 @@ func init() {
 		service, requestID := r.Header.Get(hdrVerifService), r.Header.Get(hdrVerifReqID)
 		var id *oauthID
 		if email := r.Header.Get(hdrVerifOAuth); email != "" {
+			if email == emptyEmailToken {
+				email = "" // a valid OAuth token whose identity carries no e-mail address
+			}
 			id = &oauthID{Email: email, Admin: r.Header.Get(hdrVerifAdmin) == "1"}
 		}
 		for _, h := range []string{hdrVerifService, hdrVerifReqID, hdrVerifOAuth, hdrVerifAdmin} {
@@ -88,6 +92,11 @@ func init() {
 		r.URL.RawPath = strings.TrimPrefix(r.URL.RawPath, "/__verif")
 		ctx := appengine.WithAPICallFunc(withOAuth(appengine.NewContext(r), id), fake.call)
 		switch service { // same dispatch as the app's init(), which switches on appengine.ModuleName
+		case "age": // driver-only: let time pass for one backend's liveness record (?backend=<id>&ago=<duration>)
+			ago, _ := time.ParseDuration(r.URL.Query().Get("ago"))
+			if err := store.VerifSetLastSeen(ctx, r.URL.Query().Get("backend"), time.Now().Add(-ago)); err != nil {
+				http.Error(w, err.Error(), 500)
+			}
 		case "blob": // driver-only: store the body as a blob and read it back
 			data, _ := io.ReadAll(r.Body)
 			back, inl, parts, err := store.VerifBlobRoundTrip(ctx, data, "verif-blob-"+requestID)
